@@ -6,6 +6,7 @@ package main
 
 import (
 	"fmt"
+	"math"
 	"net"
 	"runtime"
 	"sync"
@@ -46,6 +47,8 @@ func childExtra(r *mon.Run, out *childOut) {
 	deadlines(r, out)
 	addressForms(r, out)
 	zeroTTL(r, out)
+	bulkSweep(r, out)
+	suffixNames(r, out)
 	cleanExact(r, out)
 	sweepsAgainstReRegistration(r, out)
 }
@@ -134,7 +137,7 @@ func sweepsAgainstReRegistration(r *mon.Run, out *childOut) {
 // table just before the sweep — lies before the sweep started, and keep those whose deadline lies
 // after it ended.
 func cleanExact(r *mon.Run, out *childOut) {
-	ttls := []time.Duration{time.Hour, -time.Hour, 24 * time.Hour, -time.Minute, 10 * time.Minute, time.Duration(1<<31) * time.Second, -24 * time.Hour}
+	ttls := []time.Duration{time.Hour, -time.Hour, 24 * time.Hour, -time.Minute, 10 * time.Minute, time.Duration(1<<31) * time.Second, -24 * time.Hour, time.Duration(math.MaxInt64), 250 * 365 * 24 * time.Hour}
 	for run := 0; run < r.Pick(150, 3000); run++ {
 		rng := r.Rand(fmt.Sprintf("cleanexact|%d", run))
 		t := nbtns.NewNetBIOSNameServer(false)
@@ -339,7 +342,9 @@ func deadlines(r *mon.Run, out *childOut) {
 	rng := r.Rand("deadlines")
 	ttls := []time.Duration{time.Hour, 5 * time.Minute, 37 * time.Second, 24 * time.Hour, -time.Hour, 300 * time.Millisecond,
 		// the TTL field of an NBNS record is 32 bits of seconds: the top of that range must stay in the future
-		time.Duration(1<<31-1) * time.Second, time.Duration(1<<31) * time.Second, time.Duration(1<<32-1) * time.Second, time.Duration(3000000000) * time.Second}
+		time.Duration(1<<31-1) * time.Second, time.Duration(1<<31) * time.Second, time.Duration(1<<32-1) * time.Second, time.Duration(3000000000) * time.Second,
+		// the longest leases a time.Duration can express ("for ever"): their deadlines lie beyond the year 2262, where a nanosecond count no longer fits 64 bits
+		time.Duration(math.MaxInt64), time.Duration(math.MaxInt64 - 1), 250 * 365 * 24 * time.Hour, 240 * 365 * 24 * time.Hour}
 	for run := 0; run < r.Pick(200, 4000); run++ {
 		t := nbtns.NewNetBIOSNameServer(false)
 		ttl := ttls[rng.IntN(len(ttls))]
